@@ -297,7 +297,7 @@ def check_multi(c: dict, o: dict) -> list:
     if n not in SHAPES:
         raise MachineryError(f"no sum expressions exported for {n} operands")
     for e in SHAPES[n]:
-        esig = dict(sig, check="sum_expr", **_expr_feat(e))
+        esig = dict(check="sum_expr", nops=n, ordered=o["ordered"], **_expr_feat(e))  # a sum never looks inside an operand
         first = len(res)
         obj, exc = _call(lambda e=e: _eval_expr(e, mk()))  # one object, observed three times
         if exc:
